@@ -25,7 +25,7 @@ PROPS = {
     'C15': {'units': ['shape', 'bshape', 'openin', 'hmerge'], 'kani': [], 'only': {'openin': r'per_matrix_shape_and_grouping|compute_single_reduced_opening|height_group'}},
     'C13': {'units': ['sym', 'symx', 'airlay'], 'kani': []},
     'C09': {'units': ['prep', 'mult', 'pread', 'pphase', 'ptrace'], 'kani': [], 'exclude': r'H_the_preprocessed_row_of_a_constant_commits_its_value'},
-    'C08': {'units': ['mmcs', 'hash', 'mbind', 'vbatch', 'vbatchx', 'a4sched'], 'kani': []},
+    'C08': {'units': ['mmcs', 'hash', 'mbind', 'vbatch', 'vbatchx', 'a4sched', 'a4path'], 'kani': []},
     'C16': {'units': ['meta', 'vrfy', 'serde16', 'manif', 'rcplug'], 'kani': []},
     'C11': {'units': ['air', 'alu', 'run19', 'tracegen', 'pchain', 'prep'], 'kani': [], 'only': {'run19': r'execute_alu_op', 'prep': r'H_the_preprocessed_row_of_a_constant_commits_its_value'}},
 }
